@@ -245,6 +245,7 @@ func Harness_C01_encrypted() {
 		return
 	}
 	r.d.Assertions[0].Encrypt = 1 + verifChoose("doc.A0.EncryptTo", 2)
+	r.d.Assertions[0].Retrieval = verifChoose("doc.A0.Retrieval", 1+len(verifRetrievalURIs))
 	r.a, r.err = r.sp.ParseXMLResponse(verifMaterialise(r.d), r.ids, r.cur)
 	verifNote("err", r.err)
 	if r.err != nil {
